@@ -118,6 +118,17 @@ def check(run):
             lens[lit.get('v')] = lit['len']
             run.check(k == lit['len'], 'R12', 'needle-length', construct, fn.loc(c), 'needle %s has %d bytes but %s is passed: memcmp reads past the literal or matches a prefix only' % (q.render(fn, lit), lit['len'], k), 'length matches the literal')
     blank = lens.get('\r\n\r\n')
+    # bind the canonical local names structurally, so that renaming a local is not mistaken for a change of the rule
+    q.alias_local(frl, 'end_of_request', pred=lambda v: any(x['k'] == 'call' and q.callee_name(x) == FIND for x in walk(v['init'])))
+    for l in [n for n in pr.all_nodes() if n['k'] in ('while', 'for') and is_node(n.get('cond'))]:
+        c = q.cmp_atom(l['cond'])
+        if c and c[0] == '!=':
+            lhs = q.strip_casts(c[1])
+            if is_node(lhs) and lhs['k'] == 'ref' and lhs.get('dk') == 'local':
+                q.alias_local(pr, 'header', pred=lambda v, d=lhs['did']: v.get('did') == d)
+                for x in walk(c[2]):
+                    if x['k'] == 'ref' and x.get('dk') == 'local':
+                        q.alias_local(pr, 'end_of_request', pred=lambda v, d=x['did']: v.get('did') == d)
     for r in q.returns(frl):
         e = r.get('e')
         lf = q.linform(frl, e) if e is not None else None
@@ -125,7 +136,7 @@ def check(run):
             run.check(lf[1] == blank and lf[0] == {'end_of_request': 1, frl.params[0]['name']: -1}, 'R12', 'blank-line-length', FRL, frl.loc(r), 'request length is %s, not (found - buf) + %s' % (q.render(frl, e), blank), 'offset just past the blank line')
         elif e is not None:
             run.check(q.int_value(e) == -1, 'R12', 'not-found-value', FRL, frl.loc(r), 'the not-found return is not -1', 'returns -1 when there is no blank line')
-    loops = [n for n in pr.all_nodes() if n['k'] == 'while']
+    loops = [n for n in pr.all_nodes() if n['k'] in ('while', 'for') and is_node(n.get('cond'))]
     okb = False
     for l in loops:
         c = q.cmp_atom(l['cond'])
@@ -133,7 +144,7 @@ def check(run):
             lf = q.linform(pr, c[2])
             okb = lf == ({'end_of_request': 1}, -blank) if blank else False
     run.check(okb, 'R12', 'blank-line-length', PR + ': header loop end', pr.loc(), 'the header loop does not stop at end_of_request - %s' % blank, 'stops at end_of_request - 4')
-    eor = [v for n in pr.all_nodes() if n['k'] == 'decl' for v in n['vars'] if v.get('name') == 'end_of_request']
+    eor = [v for v in [q.local_var(pr, 'end_of_request')] if v]
     if not eor:
         run.broke('parse_request: local end_of_request not found (renamed?)')
     run.check(not eor or q.linform(pr, eor[0]['init']) == ({pr.params[0]['name']: 1, pr.params[1]['name']: 1}, 0), 'R12', 'end-of-request', PR, pr.loc(), 'end_of_request is not start + len', 'end_of_request == start + len')
@@ -176,7 +187,7 @@ def check(run):
         run.broke('only %d uses of search results found (about 20 confirmed by hand)' % nuse)
 
     run.clause('variant: the header loop variable is reassigned only from a search that starts strictly after it and is null-checked first')
-    hdr = [v for n in pr.all_nodes() if n['k'] == 'decl' for v in n['vars'] if v.get('name') == 'header']
+    hdr = [v for v in [q.local_var(pr, 'header')] if v]
     if not hdr:
         run.broke('parse_request: local `header` not found')
     else:
